@@ -487,6 +487,13 @@ fn main_random(budget: u64) {
         (b"MODULE Linux x86\n64 ffff0000 bar\nPUBLIC 10 0 p\n", false),
         (b"MODULE Linux x86_64 000 a\nFILE 1\n2 b.c\nPUBLIC 10 0\np\nFUNC 10\n10 0 f\n", false),
         (b"MODULE Linux x86_64 000 a\nSTACK WIN 4 10 10 0 0 0 0 0 0 1\n$eip 4 + ^ =\nSTACK CFI INIT 10 10\n.cfa: $rsp 8 +\n", false),
+        // carriage returns that are not part of a line end: after the newline (\n\r), inside a line, alone at the end of the file
+        (b"MODULE Linux x86_64 000 a\n\rFILE 1 b.c\nPUBLIC 50 0 p\n", false),
+        (b"MODULE Linux x86_64 000 a\r\n\rPUBLIC 50 0 p\r\n\r", false),
+        (b"MODULE Linux x86_64 000 a\n\r\nPUBLIC 50 0 p\n\r\r", false),
+        (b"MODULE Linux x86_64 000 a\nPUBLIC 50 0 p\rq\nFILE 1 b\r.c\n", false),
+        (b"MODULE Linux x86_64 000 a\r\r\n\r\r\nFUNC 10 10 0 f\r\r\n10 10 1 0\r\r\n\r\r\n", false),
+        (b"MODULE Linux x86_64 000 a\n\r", false),
     ];
     for (data, expect_ok) in &small {
         for s in 0..=data.len() {
